@@ -59,6 +59,7 @@ def runners():
     add('reader[f][lv][list]', lambda m: [PC(m)('plt')['a'][0][[2, 0, 1]], PC(m)('plt')[[0, 2]][1][np.array([True, True])]])
     add('iterate', lambda m: [list(PC(m)('plt')[1:][lv]) for lv in (0, 1)], multiset=True)
     add('iter()', lambda m: list(PC(m)('plt')[0][0].iter(slice(None, None, -1))))
+    add('iter(list)', lambda m: [list(PC(m)('plt')[1:][0].iter([2, 0, 1])), list(PC(m)('plt')['a'][1].iter(np.array([True, True])))])
     add('taste', lambda m: bool(m['amr_kitchen.taste.taste'].Taster('plt', nofail=True)))
     add('taste-data', lambda m: bool(m['amr_kitchen.taste.taste'].Taster('plt', nofail=True, binary_data=True, boxes_coordinates=True)))
     add('colander', lambda m: m['amr_kitchen.colander.colander'].Colander(plotfile='plt', output='out', variables=['volFrac', 'density']).strain(), ['out'])
